@@ -19,6 +19,7 @@ import IgVerif.Model.Export
 import IgVerif.Model.Comments
 import IgVerif.Model.Wrap
 import IgVerif.Model.Dispatch
+import IgVerif.Model.Literal
 /-! `igdriver <model>`: reads one op per line on stdin, prints one answer per line.
 Byte strings are hex ("-" = empty). -/
 open IgVerif
@@ -754,6 +755,17 @@ def dispatchStep (_ : Unit) (toks : List String) : IO (Unit × String) := do
     | [] => return ((), "bad-op")
   | _ => return ((), "bad-op")
 
+/-! ### lit -/
+def litStep (_ : Unit) (toks : List String) : IO (Unit × String) := do
+  match toks with
+  | ["lit", h] =>
+    match Lit.getNumber (unhex h) with
+    | some (v, k, rest) =>
+      let ks := match k with | .hex => "hex" | .bin => "bin" | .oct => "oct" | .dec => "dec"
+      return ((), s!"{v} {ks} {hex rest}")
+    | none => return ((), "none")
+  | _ => return ((), "bad-op")
+
 def main (args : List String) : IO UInt32 := do
   let stdin ← IO.getStdin
   match args with
@@ -775,4 +787,5 @@ def main (args : List String) : IO UInt32 := do
   | ["comments"] => loop stdin commentsStep (); return 0
   | ["wrap"] => loop stdin wrapStep (); return 0
   | ["dispatch"] => loop stdin dispatchStep (); return 0
+  | ["lit"] => loop stdin litStep (); return 0
   | _ => IO.eprintln "usage: igdriver <model>"; return 2
